@@ -54,9 +54,14 @@ var _ *openfgav1.Userset
 //@   -- (no field of an existing node or edge and no edge list is written: the engine derives this frame from the body)
 //@   -- graph and representation invariants are preserved
 //@   ensures nodes_wf: old(wfNodes(wg)) ==> wfNodes(wg) && result.uniqueLabel == uniqueLabel
-//@   ensures range_kept: old(inRangeE() && inRangeN()) ==> inRangeE() && inRangeN()
-//@   ensures nodes_filed: old(nodesFiled(wg)) ==> nodesFiled(wg)
+//@   ensures range_kept: {G2} old(inRangeE() && inRangeN()) ==> inRangeE() && inRangeN()
+//@   ensures linked_kept: {G2} old(linked(wg) && wfNodes(wg)) ==> linked(wg)
+//@   ensures wild_labels_kept: {G2} old(wildLabels(wg)) ==> wildLabels(wg)
+//@   ensures nodes_filed: {G2} old(nodesFiled(wg)) ==> nodesFiled(wg)
 //@   ensures separated: old(sepWildcards()) ==> sepWildcards()
+//@   ensures separated_nn: {G2} old(sepWildcardsNN()) ==> sepWildcardsNN()
+//@   ensures separated_ne: {G2} old(sepWildcardsNE()) ==> sepWildcardsNE()
+//@   ensures separated_ee: {G2} old(sepWildcardsEE()) ==> sepWildcardsEE()
 //@   ensures conds_separated: old(sepConds()) ==> sepConds()
 
 // AddNode (exported, not used by the builder). DESIGN C10: Nodes' = Nodes + {l} if absent, unchanged if present.
@@ -90,7 +95,8 @@ var _ *openfgav1.Userset
 
 //@ func (*WeightedAuthorizationModelGraph).AddEdge
 //@   props C10 C11 C04
-//@   ensures range_kept: old(inRangeE() && inRangeN()) ==> inRangeE() && inRangeN()
+//@   ensures range_kept: {G2} old(inRangeE() && inRangeN()) ==> inRangeE() && inRangeN()
+//@   ensures linked_kept: {G2} old(linked(wg) && wfNodes(wg)) && old(wg.nodes[fromID]) != nil && old(wg.nodes[toID]) != nil ==> linked(wg)
 //@   opaque_strings
 //@   requires wg != nil && wg.edges != nil
 //@   -- exactly one edge is appended to the list of fromID
@@ -109,6 +115,9 @@ var _ *openfgav1.Userset
 //@   ensures lists_separated: old(sepEdges(wg)) ==> sepEdges(wg)
 //@   ensures edges_wf: old(wfAllEdges(wg)) && wg.nodes[toID] != nil ==> wfAllEdges(wg)
 //@   ensures separated: old(sepWildcards()) ==> sepWildcards()
+//@   ensures separated_nn: {G2} old(sepWildcardsNN()) ==> sepWildcardsNN()
+//@   ensures separated_ne: {G2} old(sepWildcardsNE()) ==> sepWildcardsNE()
+//@   ensures separated_ee: {G2} old(sepWildcardsEE()) ==> sepWildcardsEE()
 //@   ensures conds_separated: len(conditions) == 0 && old(sepConds()) ==> sepConds()
 
 // The key under which UpsertEdge/HasEdge de-duplicate edges of one source node.
@@ -146,7 +155,8 @@ var _ *openfgav1.Userset
 
 //@ func (*WeightedAuthorizationModelGraph).UpsertEdge
 //@   props C10 C05 C11 C04
-//@   ensures range_kept: old(inRangeE() && inRangeN()) ==> inRangeE() && inRangeN()
+//@   ensures range_kept: {G2} old(inRangeE() && inRangeN()) ==> inRangeE() && inRangeN()
+//@   ensures linked_kept: {G2} old(linked(wg) && wfNodes(wg)) && fromNode != nil && toNode != nil && old(wg.nodes[fromNode.uniqueLabel]) == fromNode && old(wg.nodes[toNode.uniqueLabel]) == toNode ==> linked(wg)
 //@   opaque_strings
 //@   requires wg != nil && wg.edges != nil
 //@   requires fromNode != nil ==> wfEdgeList(wg.edges[fromNode.uniqueLabel])
@@ -228,11 +238,16 @@ var _ *openfgav1.Userset
 //@   -- (no field of an existing node or edge is written: the engine derives this frame from the bodies of the callees)
 //@   -- graph and representation invariants are preserved
 //@   ensures graph_ok_nodes: wfNodes(wg)
-//@   ensures nodes_filed: old(nodesFiled(wg)) ==> nodesFiled(wg)
-//@   ensures range_kept: old(inRangeE() && inRangeN()) ==> inRangeE() && inRangeN()
+//@   ensures nodes_filed: {G2} old(nodesFiled(wg)) ==> nodesFiled(wg)
+//@   ensures range_kept: {G2} old(inRangeE() && inRangeN()) ==> inRangeE() && inRangeN()
+//@   ensures linked_kept: {G2} old(linked(wg) && wfNodes(wg)) ==> linked(wg)
+//@   ensures wild_labels_kept: {G2} old(wildLabels(wg)) ==> wildLabels(wg)
 //@   ensures graph_ok_edges: old(wfAllEdges(wg)) ==> wfAllEdges(wg)
 //@   ensures lists_separated: old(sepEdges(wg)) ==> sepEdges(wg)
 //@   ensures separated: old(sepWildcards()) ==> sepWildcards()
+//@   ensures separated_nn: {G2} old(sepWildcardsNN()) ==> sepWildcardsNN()
+//@   ensures separated_ne: {G2} old(sepWildcardsNE()) ==> sepWildcardsNE()
+//@   ensures separated_ee: {G2} old(sepWildcardsEE()) ==> sepWildcardsEE()
 //@   ensures conds_separated: old(sepConds()) ==> sepConds()
 
 // ---------------------------------------------------------------------------------------------------------------
@@ -563,6 +578,7 @@ var _ *openfgav1.Userset
 //@   -- the representation invariant of the depth-first weight assignment (see calculateNodeWeight)
 //@   requires dfs_args: visited != nil && wg.edges != tupleCycleDependencies && wg.nodes[edge.to.uniqueLabel] != nil && wg.nodes[edge.from.uniqueLabel] != nil && pathSep(wg, tupleCycleDependencies, ancestorPath)
 //@   requires inv_linked: linked(wg)
+//@   requires wild_labels: wildLabels(wg)
 //@   requires inv_deps: depsWf(wg, tupleCycleDependencies) && sepDeps(tupleCycleDependencies) && sepED(wg, tupleCycleDependencies)
 //@   requires inv_wild: sepWildcards()
 //@   requires inv_range: inRangeE() && inRangeN()
@@ -663,14 +679,22 @@ var _ *openfgav1.Userset
 //@   ensures other_headers_kept: forall k string :: k != parentNode.uniqueLabel ==> wg.edges[k] == old(wg.edges[k]) && has(wg.edges, k) == old(has(wg.edges, k))
 //@   -- graph and representation invariants are preserved
 //@   ensures graph_ok_nodes: wfNodes(wg)
-//@   ensures nodes_filed: old(nodesFiled(wg)) ==> nodesFiled(wg)
-//@   ensures range_kept: old(inRangeE() && inRangeN()) ==> inRangeE() && inRangeN()
-//@   ensures wild_kept: old(sepWildcards()) ==> sepWildcards()
+//@   ensures nodes_filed: {G2} old(nodesFiled(wg)) ==> nodesFiled(wg)
+//@   ensures range_kept: {G2} old(inRangeE() && inRangeN()) ==> inRangeE() && inRangeN()
+//@   ensures linked_kept: {G2} old(linked(wg) && wfNodes(wg)) ==> linked(wg)
+//@   ensures wild_labels_kept: {G2} old(wildLabels(wg)) ==> wildLabels(wg)
+//@   ensures wild_kept_nn: {G2} old(sepWildcardsNN()) ==> sepWildcardsNN()
+//@   ensures wild_kept_ne: {G2} old(sepWildcardsNE()) ==> sepWildcardsNE()
+//@   ensures wild_kept_ee: {G2} old(sepWildcardsEE()) ==> sepWildcardsEE()
 //@   ensures parent_list_ok: wfEdgeList(wg.edges[parentNode.uniqueLabel])
 //@   loop 1 invariant nodes_wf: wfNodes(wg)
-//@   loop 1 invariant nodes_filed: old(nodesFiled(wg)) ==> nodesFiled(wg)
-//@   loop 1 invariant range_kept: old(inRangeE() && inRangeN()) ==> inRangeE() && inRangeN()
-//@   loop 1 invariant wild_kept: old(sepWildcards()) ==> sepWildcards()
+//@   loop 1 invariant nodes_filed: {G2} old(nodesFiled(wg)) ==> nodesFiled(wg)
+//@   loop 1 invariant range_kept: {G2} old(inRangeE() && inRangeN()) ==> inRangeE() && inRangeN()
+//@   loop 1 invariant linked_kept: {G2} old(linked(wg) && wfNodes(wg)) ==> linked(wg)
+//@   loop 1 invariant wild_labels_kept: {G2} old(wildLabels(wg)) ==> wildLabels(wg)
+//@   loop 1 invariant wild_kept_nn: {G2} old(sepWildcardsNN()) ==> sepWildcardsNN()
+//@   loop 1 invariant wild_kept_ne: {G2} old(sepWildcardsNE()) ==> sepWildcardsNE()
+//@   loop 1 invariant wild_kept_ee: {G2} old(sepWildcardsEE()) ==> sepWildcardsEE()
 //@   loop 1 invariant parent_in_graph: wg.nodes[parentNode.uniqueLabel] == parentNode
 //@   loop 1 invariant parent_list_wf: wfEdgeList(wg.edges[parentNode.uniqueLabel])
 //@   loop 1 invariant extended: len(wg.edges[parentNode.uniqueLabel]) >= old(len(wg.edges[parentNode.uniqueLabel]))
@@ -716,14 +740,22 @@ var _ *openfgav1.Userset
 //@   ensures existing_nodes_kept: forall k string :: old(wg.nodes[k]) != nil ==> wg.nodes[k] == old(wg.nodes[k])
 //@   ensures other_headers_kept: forall k string :: k != parentNode.uniqueLabel ==> wg.edges[k] == old(wg.edges[k]) && has(wg.edges, k) == old(has(wg.edges, k))
 //@   ensures graph_ok_nodes: wfNodes(wg)
-//@   ensures nodes_filed: old(nodesFiled(wg)) ==> nodesFiled(wg)
-//@   ensures range_kept: old(inRangeE() && inRangeN()) ==> inRangeE() && inRangeN()
-//@   ensures wild_kept: old(sepWildcards()) ==> sepWildcards()
+//@   ensures nodes_filed: {G2} old(nodesFiled(wg)) ==> nodesFiled(wg)
+//@   ensures range_kept: {G2} old(inRangeE() && inRangeN()) ==> inRangeE() && inRangeN()
+//@   ensures linked_kept: {G2} old(linked(wg) && wfNodes(wg)) ==> linked(wg)
+//@   ensures wild_labels_kept: {G2} old(wildLabels(wg)) ==> wildLabels(wg)
+//@   ensures wild_kept_nn: {G2} old(sepWildcardsNN()) ==> sepWildcardsNN()
+//@   ensures wild_kept_ne: {G2} old(sepWildcardsNE()) ==> sepWildcardsNE()
+//@   ensures wild_kept_ee: {G2} old(sepWildcardsEE()) ==> sepWildcardsEE()
 //@   ensures parent_list_ok: wfEdgeList(wg.edges[parentNode.uniqueLabel])
 //@   loop 1 invariant nodes_wf: wfNodes(wg)
-//@   loop 1 invariant nodes_filed: old(nodesFiled(wg)) ==> nodesFiled(wg)
-//@   loop 1 invariant range_kept: old(inRangeE() && inRangeN()) ==> inRangeE() && inRangeN()
-//@   loop 1 invariant wild_kept: old(sepWildcards()) ==> sepWildcards()
+//@   loop 1 invariant nodes_filed: {G2} old(nodesFiled(wg)) ==> nodesFiled(wg)
+//@   loop 1 invariant range_kept: {G2} old(inRangeE() && inRangeN()) ==> inRangeE() && inRangeN()
+//@   loop 1 invariant linked_kept: {G2} old(linked(wg) && wfNodes(wg)) ==> linked(wg)
+//@   loop 1 invariant wild_labels_kept: {G2} old(wildLabels(wg)) ==> wildLabels(wg)
+//@   loop 1 invariant wild_kept_nn: {G2} old(sepWildcardsNN()) ==> sepWildcardsNN()
+//@   loop 1 invariant wild_kept_ne: {G2} old(sepWildcardsNE()) ==> sepWildcardsNE()
+//@   loop 1 invariant wild_kept_ee: {G2} old(sepWildcardsEE()) ==> sepWildcardsEE()
 //@   loop 1 invariant parent_in_graph: wg.nodes[parentNode.uniqueLabel] == parentNode
 //@   loop 1 invariant parent_list_wf: wfEdgeList(wg.edges[parentNode.uniqueLabel])
 //@   loop 1 invariant defined_so_far: forall j int :: 0 <= j && j < $i ==> definesRelation(model, ttuParents(typeDef, rewrite)[j].GetType(), ttuComputed(rewrite))
@@ -761,6 +793,7 @@ var _ *openfgav1.Userset
 //@ func (*WeightedAuthorizationModelGraphBuilder).parseRewrite
 //@   props C10 C05 C13 C04
 //@   decreases rwHeight(rewrite)
+//@   requires graph_linked: {G2} linked(wg)
 //@   requires wg != nil && wg.nodes != nil && wg.edges != nil && wfNodes(wg)
 //@   requires parent_in_graph: parentNode != nil && wg.nodes[parentNode.uniqueLabel] == parentNode
 //@   requires wf_oneofs: forall u *openfgav1.Userset :: wfUserset(u)
@@ -770,13 +803,21 @@ var _ *openfgav1.Userset
 //@   ensures error_is_invalid_model: err != nil ==> wraps(err, ErrInvalidModel)
 //@   ensures existing_nodes_kept: forall k string :: old(wg.nodes[k]) != nil ==> wg.nodes[k] == old(wg.nodes[k])
 //@   ensures graph_ok_nodes: wfNodes(wg)
-//@   ensures nodes_filed: old(nodesFiled(wg)) ==> nodesFiled(wg)
-//@   ensures range_kept: old(inRangeE() && inRangeN()) ==> inRangeE() && inRangeN()
-//@   ensures wild_kept: old(sepWildcards()) ==> sepWildcards()
+//@   ensures nodes_filed: {G2} old(nodesFiled(wg)) ==> nodesFiled(wg)
+//@   ensures range_kept: {G2} old(inRangeE() && inRangeN()) ==> inRangeE() && inRangeN()
+//@   ensures linked_kept: {G2} old(linked(wg) && wfNodes(wg)) ==> linked(wg)
+//@   ensures wild_labels_kept: {G2} old(wildLabels(wg)) ==> wildLabels(wg)
+//@   ensures wild_kept_nn: {G2} old(sepWildcardsNN()) ==> sepWildcardsNN()
+//@   ensures wild_kept_ne: {G2} old(sepWildcardsNE()) ==> sepWildcardsNE()
+//@   ensures wild_kept_ee: {G2} old(sepWildcardsEE()) ==> sepWildcardsEE()
 //@   loop 1 invariant nodes_wf: wfNodes(wg)
-//@   loop 1 invariant nodes_filed: old(nodesFiled(wg)) ==> nodesFiled(wg)
-//@   loop 1 invariant range_kept: old(inRangeE() && inRangeN()) ==> inRangeE() && inRangeN()
-//@   loop 1 invariant wild_kept: old(sepWildcards()) ==> sepWildcards()
+//@   loop 1 invariant nodes_filed: {G2} old(nodesFiled(wg)) ==> nodesFiled(wg)
+//@   loop 1 invariant range_kept: {G2} old(inRangeE() && inRangeN()) ==> inRangeE() && inRangeN()
+//@   loop 1 invariant linked_kept: {G2} old(linked(wg) && wfNodes(wg)) ==> linked(wg)
+//@   loop 1 invariant wild_labels_kept: {G2} old(wildLabels(wg)) ==> wildLabels(wg)
+//@   loop 1 invariant wild_kept_nn: {G2} old(sepWildcardsNN()) ==> sepWildcardsNN()
+//@   loop 1 invariant wild_kept_ne: {G2} old(sepWildcardsNE()) ==> sepWildcardsNE()
+//@   loop 1 invariant wild_kept_ee: {G2} old(sepWildcardsEE()) ==> sepWildcardsEE()
 //@   loop 1 invariant nodes_kept: forall k string :: old(wg.nodes[k]) != nil ==> wg.nodes[k] == old(wg.nodes[k])
 //@   loop 1 invariant op_in_graph: operatorNode != nil && wg.nodes[operatorNode.uniqueLabel] == operatorNode
 //@   loop 1 invariant union_children: is(rewrite.GetUserset(), *openfgav1.Userset_Union) ==> children == rewrite.GetUnion().GetChild()
@@ -800,8 +841,10 @@ var _ *openfgav1.Userset
 //   sepED       no dependency list shares a backing array with an edge list of the graph
 //   inRange     every weight lies in [0, Infinite]
 //@ spec linkedEdge(wg *WeightedAuthorizationModelGraph, e *WeightedAuthorizationModelEdge) bool =
-//@   e != nil && e.from != nil && e.to != nil && wg.nodes[e.to.uniqueLabel] != nil && wg.nodes[e.from.uniqueLabel] != nil
-//@   && (e.to.nodeType == SpecificTypeWildcard ==> len(e.to.uniqueLabel) >= 2)
+//@   e != nil && e.from != nil && e.to != nil && wg.nodes[e.to.uniqueLabel] == e.to && wg.nodes[e.from.uniqueLabel] == e.from
+// a wildcard node is filed under a label that ends in ":*" (at least two characters; calculateNodeWeight cuts them off)
+//@ spec wildLabels(wg *WeightedAuthorizationModelGraph) bool =
+//@   forall k string :: wg.nodes[k] != nil && wg.nodes[k].nodeType == SpecificTypeWildcard ==> len(k) >= 2
 //@ spec linked(wg *WeightedAuthorizationModelGraph) bool =
 //@   forall k string, i int :: 0 <= i && i < len(wg.edges[k]) ==> linkedEdge(wg, wg.edges[k][i])
 //@ spec depsWf(wg *WeightedAuthorizationModelGraph, m map[string][]*WeightedAuthorizationModelEdge) bool =
@@ -821,6 +864,7 @@ var _ *openfgav1.Userset
 //@   requires path: wfPath(ancestorPath)
 //@   requires path_sep: pathSep(wg, tupleCycleDependencies, ancestorPath)
 //@   requires inv_linked: linked(wg)
+//@   requires wild_labels: wildLabels(wg)
 //@   requires inv_deps: depsWf(wg, tupleCycleDependencies) && sepDeps(tupleCycleDependencies) && sepED(wg, tupleCycleDependencies)
 //@   requires inv_wild_nn: sepWildcardsNN()
 //@   requires inv_wild_ne: sepWildcardsNE()
@@ -871,10 +915,10 @@ var _ *openfgav1.Userset
 //@   props C05 C08 C04
 //@   closed_alloc
 //@   requires wg != nil
-//@   requires graph_nodes: nodesFiled(wg)
-//@   requires graph_linked: linked(wg)
-//@   requires graph_wild: sepWildcards()
-//@   requires graph_range: inRangeE() && inRangeN()
+//@   requires graph_nodes: {G2} nodesFiled(wg)
+//@   requires graph_linked: {G2} linked(wg) && wildLabels(wg)
+//@   requires graph_wild: {G2} sepWildcards()
+//@   requires graph_range: {G2} inRangeE() && inRangeN()
 //@   loop 1 invariant args: visited != nil && tupleCycleDependencies != nil && fresh(tupleCycleDependencies) && fresh(visited) && wg.edges != tupleCycleDependencies
 //@   loop 1 invariant path: len(ancestorPath) == 0 && fresh(ancestorPath) && pathSep(wg, tupleCycleDependencies, ancestorPath)
 //@   loop 1 invariant inv_nodes: nodesFiled(wg)
@@ -895,20 +939,29 @@ var _ *openfgav1.Userset
 //@   readonly_receiver
 //@   requires wf_oneofs: forall u *openfgav1.Userset :: wfUserset(u)
 //@   -- type invariant of the graph package (only its own functions write weights): every weight map in the heap is in range
-//@   requires weights_in_range: inRangeE() && inRangeN()
-//@   requires wildcards_separated: sepWildcards()
+//@   requires weights_in_range: {G2} inRangeE() && inRangeN()
+//@   requires wildcards_separated: {G2} sepWildcards()
 //@   ensures error_is_sentinel: err != nil ==> wraps(err, ErrModelCycle) || wraps(err, ErrTupleCycle) || wraps(err, ErrInvalidModel)
 //@   ensures graph_iff_accepted: (err == nil) <==> (result0 != nil)
 //@   ensures fresh_graph: result0 != nil ==> fresh(result0)
 //@   loop 1 invariant graph: wb != nil && fresh(wb) && wb.nodes != nil && wb.edges != nil && fresh(wb.nodes) && fresh(wb.edges) && wfNodes(wb)
-//@   loop 1 invariant nodes_filed: nodesFiled(wb)
-//@   loop 1 invariant range_kept: inRangeE() && inRangeN()
-//@   loop 1 invariant wild_kept: sepWildcards()
+//@   loop 1 invariant nodes_filed: {G2} nodesFiled(wb)
+//@   loop 1 invariant range_kept: {G2} inRangeE() && inRangeN()
+//@   loop 1 invariant linked_kept: {G2} linked(wb) && wildLabels(wb)
+//@   loop 1 invariant wild_kept_nn: {G2} sepWildcardsNN()
+//@   loop 1 invariant wild_kept_ne: {G2} sepWildcardsNE()
+//@   loop 1 invariant wild_kept_ee: {G2} sepWildcardsEE()
 //@   loop 1.1 invariant graph: wb != nil && fresh(wb) && wb.nodes != nil && wb.edges != nil && fresh(wb.nodes) && fresh(wb.edges) && wfNodes(wb)
-//@   loop 1.1 invariant nodes_filed: nodesFiled(wb)
-//@   loop 1.1 invariant range_kept: inRangeE() && inRangeN()
-//@   loop 1.1 invariant wild_kept: sepWildcards()
+//@   loop 1.1 invariant nodes_filed: {G2} nodesFiled(wb)
+//@   loop 1.1 invariant range_kept: {G2} inRangeE() && inRangeN()
+//@   loop 1.1 invariant linked_kept: {G2} linked(wb) && wildLabels(wb)
+//@   loop 1.1 invariant wild_kept_nn: {G2} sepWildcardsNN()
+//@   loop 1.1 invariant wild_kept_ne: {G2} sepWildcardsNE()
+//@   loop 1.1 invariant wild_kept_ee: {G2} sepWildcardsEE()
 //@   loop 1.2 invariant graph: wb != nil && fresh(wb) && wb.nodes != nil && wb.edges != nil && fresh(wb.nodes) && fresh(wb.edges) && wfNodes(wb)
-//@   loop 1.2 invariant nodes_filed: nodesFiled(wb)
-//@   loop 1.2 invariant range_kept: inRangeE() && inRangeN()
-//@   loop 1.2 invariant wild_kept: sepWildcards()
+//@   loop 1.2 invariant nodes_filed: {G2} nodesFiled(wb)
+//@   loop 1.2 invariant range_kept: {G2} inRangeE() && inRangeN()
+//@   loop 1.2 invariant linked_kept: {G2} linked(wb) && wildLabels(wb)
+//@   loop 1.2 invariant wild_kept_nn: {G2} sepWildcardsNN()
+//@   loop 1.2 invariant wild_kept_ne: {G2} sepWildcardsNE()
+//@   loop 1.2 invariant wild_kept_ee: {G2} sepWildcardsEE()
